@@ -1,10 +1,13 @@
 (* C06 — a module seen through its emitted stub has the types that were inferred for it.
    PARTIAL: the theorems cover TYPE EXPRESSIONS of the emitted dialect (module-level constants `x: T` and
-   aliases `x = T`); signatures, classes, type parameters and module resolution are covered by the
-   end-to-end differential in harness/props/c06.py only.
+   aliases `x = T`) and, on the declaration level (Conv/Decl.v, second half of this file): results of calls of
+   functions with one signature (any parameter kinds) and of overloaded functions (selection rule), class
+   re-exports, ground attributes / properties, and a type parameter read at the top of an attribute; the matcher
+   is a parameter (measured and monitored by the harness); attribute types with type parameters below containers,
+   module resolution and everything else are covered by the correspondence and the end-to-end differential only.
    Property theorems only; each is closed by [exact] and followed by Print Assumptions. *)
 From Coq Require Import List NArith Arith Bool.
-From PV Require Import Conv.Model Conv.Proofs.
+From PV Require Import Conv.Model Conv.Proofs Conv.Decl Conv.DeclProofs.
 Import ListNotations.
 Open Scope N_scope.
 
@@ -164,3 +167,198 @@ Proof.
   - intros a H. auto.
   - reflexivity.
 Qed.
+
+
+(* ============================================================================================== *)
+(* DECLARATIONS (model: Conv/Decl.v) *)
+
+(* Functions' results.  [acc a f]: the matcher accepts the variable conv_var a for the formal type f (C02's; the
+   harness measures it on the real code for every pair it uses and monitors acc t t = true).
+   One signature, ANY parameter kinds (positional-only, defaults, *args, **kwargs, keyword-only) and ANY arguments
+   (unions and Any included): when _map_args / _fill_in_missing_params / the matcher accept the call, B's stub gives
+   y = A.f(...) the declared return type and no error is reported. *)
+Theorem call_single_sig : forall (arity : cid -> nat) (acc : ty -> ty -> bool) (s : sig) (c : call),
+  arity type_id = 1%nat -> arity tuple_id = 1%nat ->
+  sig_accepts acc s c = true -> wf_top arity (s_ret s) = true ->
+  snd (call_emitted arity acc [s] c) = true /\
+  nf (def_ty (fst (call_emitted arity acc [s] c))) = nf (s_ret s).
+Proof. intros arity acc s c H1 H2. exact (call_single_sig_lemma arity acc H1 H2 s c). Qed.
+Print Assumptions call_single_sig.
+
+(* ... and when they do not, an error is reported and y is Any *)
+Theorem call_rejected : forall (arity : cid -> nat) (acc : ty -> ty -> bool) (s : sig) (c : call),
+  sig_accepts acc s c = false -> call_emitted arity acc [s] c = (DConst TAny, false).
+Proof. intros arity acc s c. exact (call_rejected_lemma arity acc s c). Qed.
+Print Assumptions call_rejected.
+
+(* Overload selection (PyTDFunction._match_args_sequentially / _MatchedSignatures.add, one view): when no argument
+   variable holds Any / an empty value, the FIRST signature in stub order that accepts the call supplies the
+   result type; if none accepts, an error is reported and y is Any. *)
+Theorem overload_first_match : forall (arity : cid -> nat) (acc : ty -> ty -> bool) (f : list sig) (c : call),
+  arity type_id = 1%nat -> arity tuple_id = 1%nat ->
+  ambiguous_call arity c = false ->
+  match first_accepting acc c f with
+  | Some s => wf_top arity (s_ret s) = true ->
+              snd (call_emitted arity acc f c) = true /\
+              nf (def_ty (fst (call_emitted arity acc f c))) = nf (s_ret s)
+  | None => call_emitted arity acc f c = (DConst TAny, false)
+  end.
+Proof. intros arity acc f c H1 H2. exact (overload_first_match_lemma arity acc H1 H2 f c). Qed.
+Print Assumptions overload_first_match.
+
+(* hence: signature k called with its own parameter types, accepted by itself and by no earlier signature, gives
+   its own declared return type *)
+Theorem overload_own_signature : forall (arity : cid -> nat) (acc : ty -> ty -> bool) (pre post : list sig) (s : sig),
+  arity type_id = 1%nat -> arity tuple_id = 1%nat ->
+  ambiguous_call arity (own_call s) = false ->
+  forallb (fun s0 => negb (sig_accepts acc s0 (own_call s))) pre = true ->
+  sig_accepts acc s (own_call s) = true -> wf_top arity (s_ret s) = true ->
+  snd (call_emitted arity acc (pre ++ s :: post) (own_call s)) = true /\
+  nf (def_ty (fst (call_emitted arity acc (pre ++ s :: post) (own_call s)))) = nf (s_ret s).
+Proof.
+  intros arity acc pre post s H1 H2 Hamb Hpre Hs Hwf.
+  pose proof (overload_first_match_lemma arity acc H1 H2 (pre ++ s :: post) (own_call s) Hamb) as H.
+  rewrite (first_accepting_own acc (own_call s) pre s post Hpre Hs) in H. exact (H Hwf).
+Qed.
+Print Assumptions overload_own_signature.
+
+(* The statement without "not ambiguous" is REFUTED by the faithful model:  f(a: int) -> int / f(a: Any) -> bytes,
+   the second signature called with its own parameter type Any: every signature matches an Unsolvable argument
+   (_can_match_multiple), the return types are joined and the union is replaced by Any.  Reproduced on the real
+   code (known finding overload-called-with-Any-argument-is-Any). *)
+Definition ex_sig_int : sig := mkSig [mkParam 10 PosOrKw false (TClass 10)] None None (TClass 10).
+Definition ex_sig_any : sig := mkSig [mkParam 10 PosOrKw false TAny] None None (TClass 14).
+Theorem overload_own_signature_full_refuted : exists (acc : ty -> ty -> bool) (pre : list sig) (s : sig),
+  sig_accepts acc s (own_call s) = true /\ wf_top builtin_arity (s_ret s) = true /\
+  snd (call_emitted builtin_arity acc (pre ++ [s]) (own_call s)) = true /\
+  canon (def_ty (fst (call_emitted builtin_arity acc (pre ++ [s]) (own_call s)))) <> canon (s_ret s).
+Proof.
+  (* the matcher's real answers for the two pairs involved: an Unsolvable argument is accepted for `int` and for Any *)
+  exists (fun a f => is_any a), [ex_sig_int], ex_sig_any.
+  split; [reflexivity|split; [reflexivity|split; [reflexivity|]]]. vm_compute. discriminate.
+Qed.
+Print Assumptions overload_own_signature_full_refuted.
+
+(* Class re-export (`from A import C`, `C2 = A.C`, `from A import C as D`): B's stub shows the class-valued
+   attribute type[C]. *)
+Theorem class_reexport : forall (arity : cid -> nat) (c : cid),
+  arity type_id = 1%nat -> arity tuple_id = 1%nat -> c <> 0 -> c <> type_id ->
+  nf (def_ty (reexport_class arity c)) = TGeneric type_id [TClass c].
+Proof. intros arity c H1 H2. exact (reexport_class_lemma arity H1 H2 c). Qed.
+Print Assumptions class_reexport.
+
+(* Attributes of A's classes, read on an instance  x: C[ps]  (any chain of base classes, any parameters ps):
+   a GROUND attribute or property that the lookup finds (no parametric constant of that name further up the chain,
+   see the known finding generic-base-attribute-overridden-in-subclass) is emitted with its declared type. *)
+Theorem attr_ground_read : forall (arity : cid -> nat) (fuel : nat) (tbl : ctable) (c : cid) (ps : list ty) (name : N)
+                                  (k : cdecl) (kenv : list (list aval)) (t : ty),
+  arity type_id = 1%nat -> arity tuple_id = 1%nat ->
+  find_preload name (chain arity fuel tbl c (inst_env arity ps)) = None ->
+  (find_first name (chain arity fuel tbl c (inst_env arity ps)) = Some (k, kenv, MConst (DGround t)) \/
+   exists s, find_first name (chain arity fuel tbl c (inst_env arity ps)) = Some (k, kenv, MMethod KProperty [(s, DGround t)])) ->
+  wf_top arity t = true ->
+  snd (read_emitted arity fuel tbl c ps name) = true /\
+  nf (def_ty (fst (read_emitted arity fuel tbl c ps name))) = nf t.
+Proof.
+  intros arity fuel tbl c ps name k kenv t H1 H2 Hpre Hfirst Hwf.
+  unfold read_emitted, attr_read. rewrite Hpre.
+  destruct Hfirst as [-> | [s ->]]; exact (emitted_ground arity H1 H2 t Hwf).
+Qed.
+Print Assumptions attr_ground_read.
+
+(* A type parameter read at the top of an attribute ( x: T  declared in class k of the chain, T the i-th entry of
+   k's template): when the SHORT name of T does not resolve to a different parameter of the instance's own class
+   ([short_env ... = kenv], the monitored hypothesis; see the refutation below) the emitted type is the instance's
+   value for T: the declared type under the substitution. *)
+Theorem attr_typevar_read : forall (arity : cid -> nat) (fuel : nat) (tbl : ctable) (c : cid) (ps : list ty) (name : N)
+                                   (k : cdecl) (kenv : list (list aval)) (i : nat) (p : ty),
+  arity type_id = 1%nat -> arity tuple_id = 1%nat ->
+  find_preload name (chain arity fuel tbl c (inst_env arity ps)) = Some (k, kenv, DParam i) ->
+  nth i (short_env (match find_class tbl c with Some k0 => k_template k0 | None => [] end) (inst_env arity ps) k kenv) []
+    = conv_var arity p ->
+  (i < length (short_env (match find_class tbl c with Some k0 => k_template k0 | None => [] end) (inst_env arity ps) k kenv))%nat ->
+  conv_var arity p <> [] -> existsb is_tpi (conv_var arity p) = false ->
+  wf_top arity p = true ->
+  snd (read_emitted arity fuel tbl c ps name) = true /\
+  nf (def_ty (fst (read_emitted arity fuel tbl c ps name))) = nf p.
+Proof.
+  intros arity fuel tbl c ps name k kenv i p H1 H2 Hpre Hnth Hlt Hne Htpi Hwf.
+  unfold read_emitted, attr_read. rewrite Hpre. unfold dvar_attr, dvar_gen, tpi.
+  rewrite (nth_indep _ [] ((fun vals => [VTParamInst vals]) [])) by (rewrite map_length; exact Hlt).
+  rewrite (map_nth (fun vals => [VTParamInst vals])). rewrite Hnth.
+  rewrite (filter_var_tpi_single _ Htpi Hne).
+  exact (emitted_ground arity H1 H2 p Hwf).
+Qed.
+Print Assumptions attr_typevar_read.
+
+(* The statement without the short-name hypothesis is REFUTED by the faithful model:
+     class C4(Generic[T, S]): m0: T        class C5(C4[int, T], Generic[T]): ...        g: C5[bytes]
+   g.m0 is declared int (C4's T := int) and read as bytes: attribute._filter_var resolves the type parameter by its
+   short name in the template of the INSTANCE's class, where T is C5's own parameter.  Reproduced on the real code
+   (known finding typevar-name-collision-base-attribute). *)
+Definition ex_arity (c : cid) : nat := match c with 36%N => 2%nat | 37%N => 1%nat | _ => builtin_arity c end.
+Definition ex_tbl : ctable :=
+  [ mkC 36 [1; 2] None [(100, MConst (DParam 0))];
+    mkC 37 [1] (Some (36, [DGround (TClass 10); DParam 0])) [] ].
+Theorem attr_typevar_read_full_refuted :
+  declared_attr 8 ex_tbl 37 [TClass 14] 100 = Some (TClass 10) /\
+  snd (read_emitted ex_arity 8 ex_tbl 37 [TClass 14] 100) = true /\
+  canon (def_ty (fst (read_emitted ex_arity 8 ex_tbl 37 [TClass 14] 100))) = TClass 14.
+Proof. vm_compute. auto. Qed.
+Print Assumptions attr_typevar_read_full_refuted.
+
+(* ---- non-vacuity of the declaration theorems ---- *)
+
+(* def f(a0: int, /, a1: str = ..., *args: int, a2: float, a3: bytes = ..., **kw: str) -> list[int]
+   called as f(p_int, a2=p_float) and as f(p_int, p_str, p_int, p_int, a2=.., a3=.., k1=p_str, k0=p_str) *)
+Definition ex_sig : sig :=
+  mkSig [mkParam 10 PosOnly false (TClass 10); mkParam 11 PosOrKw true (TClass 11);
+         mkParam 12 KwOnly false (TClass 12); mkParam 13 KwOnly true (TClass 14)]
+        (Some (TClass 10)) (Some (TClass 11)) (TGeneric 6 [TClass 10]).
+Definition ex_acc (a f : ty) : bool := match ty_cmp a f with Eq => true | _ => false end.
+Example ex_call_defaults :
+  map_args ex_sig (mkCall [TClass 10] [(12, TClass 12)]) =
+  inr [(TClass 10, AGiven (TClass 10)); (TClass 11, AFilled); (TClass 12, AGiven (TClass 12)); (TClass 14, AFilled)] /\
+  call_emitted builtin_arity ex_acc [ex_sig] (mkCall [TClass 10] [(12, TClass 12)]) = (DConst (TGeneric 6 [TClass 10]), true).
+Proof. split; reflexivity. Qed.
+Example ex_call_star_kwargs :
+  map_args ex_sig (mkCall [TClass 10; TClass 11; TClass 10; TClass 10] [(12, TClass 12); (13, TClass 14); (51, TClass 11); (50, TClass 11)]) =
+  inr [(TClass 10, AGiven (TClass 10)); (TClass 11, AGiven (TClass 11)); (TClass 12, AGiven (TClass 12)); (TClass 14, AGiven (TClass 14));
+       (TClass 10, AGiven (TClass 10)); (TClass 10, AGiven (TClass 10)); (TClass 11, AGiven (TClass 11)); (TClass 11, AGiven (TClass 11))].
+Proof. reflexivity. Qed.
+Example ex_call_errors :
+  map_args ex_sig (mkCall [] [(12, TClass 12)]) = inl MissingParam /\
+  map_args (mkSig [mkParam 10 PosOrKw false TAny] None None TAny) (mkCall [TAny; TAny] []) = inl WrongArgCount /\
+  map_args (mkSig [mkParam 10 PosOrKw false TAny] None None TAny) (mkCall [TAny] [(10, TAny)]) = inl DuplicateKeyword /\
+  map_args (mkSig [mkParam 10 PosOrKw false TAny] None None TAny) (mkCall [TAny] [(50, TAny)]) = inl WrongKeywordArgs /\
+  map_args (mkSig [mkParam 10 PosOnly false TAny] None None TAny) (mkCall [TAny] [(10, TAny)]) = inl WrongKeywordArgs.
+Proof. repeat split; reflexivity. Qed.
+Example ex_own_call_accepted : sig_accepts ex_acc ex_sig (own_call ex_sig) = true.
+Proof. reflexivity. Qed.
+(* overloads: f(a: int) -> int / f(a: str) -> str / f(a: bytes) -> bytes called with str picks the second *)
+Example ex_overload :
+  call_emitted builtin_arity ex_acc
+    [mkSig [mkParam 10 PosOrKw false (TClass 10)] None None (TClass 10);
+     mkSig [mkParam 10 PosOrKw false (TClass 11)] None None (TClass 11);
+     mkSig [mkParam 10 PosOrKw false (TClass 14)] None None (TClass 14)] (mkCall [TClass 11] []) = (DConst (TClass 11), true).
+Proof. reflexivity. Qed.
+(* the chain of the refutation example, read through the method path (m(self) -> T would be int): ground attribute *)
+Example ex_attr_ground :
+  read_emitted ex_arity 8 [mkC 36 [1] None [(100, MConst (DGround (TGeneric 6 [TClass 11])))]; mkC 37 [] (Some (36, [DGround (TClass 10)])) []]
+               37 [] 100 = (DConst (TGeneric 6 [TClass 11]), true).
+Proof. reflexivity. Qed.
+(* x: T on C4[int, str] itself; list[T] nested (resolved by full name at output time); the view split of a method *)
+Example ex_attr_typevar :
+  read_emitted ex_arity 8 ex_tbl 36 [TClass 10; TClass 11] 100 = (DConst (TClass 10), true).
+Proof. reflexivity. Qed.
+Example ex_attr_nested_typevar :
+  read_emitted ex_arity 8 [mkC 36 [1; 2] None [(100, MConst (DGeneric 6 [DParam 1]))]] 36 [TClass 10; TUnion [TClass 11; TClass 2]] 100
+  = (DConst (TGeneric 6 [TUnion [TClass 11; TClass 2]]), true).
+Proof. reflexivity. Qed.
+Example ex_method_views :   (* def m(self) -> list[T] on C4[Optional[bytes], int]: one result per view, before Optimize *)
+  mcall_emitted ex_arity ex_acc 8 [mkC 36 [1; 2] None [(100, MMethod KMethod [(mkSig [] None None TAny, DGeneric 6 [DParam 0])])]]
+                36 [TUnion [TClass 14; TClass 2]; TClass 10] 100 (mkCall [] [])
+  = (DConst (TUnion [TGeneric 6 [TClass 14]; TGeneric 6 [TClass 2]]), true).
+Proof. reflexivity. Qed.
+Example ex_reexport : reexport_class builtin_arity 33 = DConst (TGeneric type_id [TClass 33]).
+Proof. reflexivity. Qed.
